@@ -100,6 +100,17 @@ Theorem C34_poke_text : forall m st a b, vm_kind m = 3 ->
 Proof. exact text_poke. Qed.
 Print Assumptions C34_poke_text.
 
+Theorem C34_poke_text_only_cell : forall m st a b p r c, vm_kind m = 3 ->
+  (let '(page, row, col, par) := text_cell m a in (p, r, c) <> (page, row, col)) ->
+  vs_ch (poke m st a b) p r c = vs_ch st p r c /\ vs_at (poke m st a b) p r c = vs_at st p r c.
+Proof. exact text_poke_other. Qed.
+Print Assumptions C34_poke_text_only_cell.
+
+Theorem C34_poke_peek_text : forall m st a b, vm_kind m = 3 -> cells_nonneg st -> 0 <= b ->
+  text_in_range m a = true -> peek m (poke m st a b) a = b.
+Proof. exact text_poke_peek. Qed.
+Print Assumptions C34_poke_peek_text.
+
 (* ---- distinct addresses cover disjoint content (stride arithmetic of banks and pages) *)
 Theorem C34_coords_injective : forall m a1 a2, wf_gmode m = true ->
   vmem_get_coords m a1 = vmem_get_coords m a2 -> plane_class m a1 = plane_class m a2 -> a1 = a2.
@@ -154,6 +165,14 @@ Example C34_mid_bank_block :
   get_memory m st (753664 + 8092) 200 = peeks m st (753664 + 8092) 200 /\
   nth 150 (get_memory m st (753664 + 8092) 200) 0 = peek m st (753664 + 8192 + 50).
 Proof. vm_compute. split; reflexivity. Qed.
+
+Example C34_text_nonvacuous :
+  let m := vmode_cgatext80 262144 in let st := init_state 9 256 in
+  wf_text m = true /\ text_in_range m (753664 + 4096 + 163) = true /\
+  text_cell m (753664 + 4096 + 163) = (1, 1, 1, 1) /\
+  peek m (poke m st (753664 + 4096 + 163) 33) (753664 + 4096 + 163) = 33 /\
+  text_in_range m (753664 - 4096) = false.
+Proof. vm_compute. repeat split; reflexivity. Qed.
 
 Example C34_tandy_odd_block :
   let m := vmode_640x200x4 262144 in let st := init_state 8 4 in
